@@ -81,12 +81,25 @@ def history(seed):
 
 
 def bounded(sc):
-    """drop scenarios whose scripted callbacks would register timers without bound (not a property of the ECU)"""
-    try:
-        tr, sim = scen_timers.run(sc)
-    except scen_timers.TooBig:
+    """keep only scenarios whose scripts cannot register timers without bound and whose periodic timers fire a
+    bounded number of times (decided from the scenario, not from what the ECU does with it)"""
+    scr = sc["scripts"]
+    plain = {k for k, v in scr.items() if not v["ret"] and not any(o["op"] == "add" for o in v["ops"])}
+    for k, v in scr.items():
+        for o in v["ops"]:
+            if o["op"] == "add" and (str(o["cb"]) not in plain or v["ret"]):
+                return None
+    def firings(dur):
+        end = max([o["t"] for o in sc["ops"]] + [0]) + dur
+        return sum((end - o["t"]) // o["delta"] if scr[str(o["cb"])]["ret"] else 1
+                   for o in sc["ops"] if o["op"] == "add")
+    dur = sc["dur"]
+    while firings(dur) > 400 and dur > 2000:
+        dur //= 2
+    if firings(dur) > 400:
         return None
-    return tr if len(tr["ev"]) < 1500 else None
+    sc = dict(sc, dur=dur)
+    return scen_timers.run(sc)[0]
 
 
 def nontrivial(tr):
